@@ -141,12 +141,16 @@ fn jobs(tier: Tier) -> &'static Vec<Job> {
         Tier::Thorough => &TH,
     };
     cell.get_or_init(|| {
+        // the generic jobs are the expensive ones: listed first so that the round-robin sharding
+        // spreads them evenly over the workers
         let mut v = vec![];
         for t in tables(tier) {
-            v.push(Job { table: t.clone(), generic_depth: None, level: 0 });
             if t.nparts == 3 && t.disabled == 0 && !(t.v2 && t.first_release && tier == Tier::Quick) {
                 v.push(Job { table: t.clone(), generic_depth: Some(if tier == Tier::Quick { 5 } else { 6 }), level: 0 });
             }
+        }
+        for t in tables(tier) {
+            v.push(Job { table: t.clone(), generic_depth: None, level: 0 });
         }
         v
     })
